@@ -26,34 +26,25 @@ def row_case(r):
     vs, t = r["vs"], r["t"]
     valid = [w for w in vs if w["from"] <= t < w["until"]]
     froms = [w["from"] for w in valid]
-    tie = len(froms) != len(set(froms))
-    b = []
-    if any(t == w["from"] for w in vs):
-        b.append("from")
-    if any(t == w["until"] for w in vs):
-        b.append("until")
-    return "versions=%d,valid=%d,tie=%d,boundary=%s" % (len(vs), len(valid), tie, "+".join(b) or "none")
+    return {"versions": len(vs), "valid": len(valid), "tie": int(len(froms) != len(set(froms))),
+            "at_from": int(any(t == w["from"] for w in vs)), "at_until": int(any(t == w["until"] for w in vs))}
 
 
 def signature(chk, e):
-    r = e["row"]
+    """sign/<check>/<case>.  Grouped signatures: the case keeps the features that all failing executions of one check
+    have in common (see egsign.group_by_signature)."""
+    r, c = e["row"], e["conc"]
     if r["kind"] == "redir":
         return "sign/%s/redirects=on,%s" % (chk, "rewritten_to_get" if r["code"] in (301, 302, 303) else "method_preserved")
     if r["kind"] == "in":
         own = r["signer"] and r["vs"][r["signer"] - 1]
         rel = "outsider" if not own else ("at_from" if r["t"] == own["from"] else "at_until" if r["t"] == own["until"] else
                                           "inside" if own["from"] < r["t"] < own["until"] else "outside")
-        return "sign/%s/in:signer=%s,off=%d" % (chk, rel, r["off"])
-    case = row_case(r)
-    if chk in ("escaped_path",):
-        case = "path=" + e["conc"]["path"]
-    elif chk in ("body_as_sent",):
-        case = "body=" + e["conc"]["body"]
-    elif chk in ("method",):
-        case = "method=" + (e["conc"]["method"] or "default")
-    elif chk in ("timestamp_seconds",):
-        case = "sub=%s" % ("0" if e["conc"]["sub"] == 0 else "inside")
-    return "sign/%s/%s:mode=%s,%s" % (chk, r["kind"], r["mode"], case)
+        return ("sign/%s/inbound" % chk, {"signer": rel, "clock_offset": r["off"], "versions": len(r["vs"])})
+    feats = row_case(r)
+    feats.update({"mode": r["mode"], "unloadable": int(r["un"] > 0), "via": c.get("via", "deliverer"), "path": c["path"], "body": c["body"],
+                  "method": c["method"] or "default", "instant": "boundary" if c["sub"] == 0 else "inside", "listed_in_id_order": int(c["order"] == sorted(c["order"]))})
+    return ("sign/%s/outbound" % chk, feats)
 
 
 def describe(chk, e):
@@ -137,7 +128,7 @@ def run(ctx):
         nrows = len(seen)
         ctx.count("abstract_rows", nrows)
         out = os.path.join(ctx.shm, "sign-trace")
-        shards = es.WORKERS
+        shards = es.WORKERS if ctx.quick else 4 * es.WORKERS
         info = json.loads(vf.tool("hkv-sign", ["run", "-rows", rows_file, "-out", out, "-shards", str(shards), "-per", str(per),
                                               "-seed", str(ctx.seed), "-scratch", ctx.shm], timeout=timeout).strip().splitlines()[-1])
         mc.result()
@@ -148,7 +139,7 @@ def run(ctx):
     ctx.cov["schedules_executed"] += info["events"]
     ctx.cov["traces_validated_against_impl"] += info["events"]
     files = es.shard_files(out, shards)
-    res = vf.tv_run(ctx, files, module="SigningTrace", name="tv-sign", timeout=timeout)
+    res = es.tv(ctx, files, "SigningTrace", "tv-sign", timeout=timeout)
     total = sum(r["total"] for r in res)
     if total != info["events"]:
         raise vf.Infra("trace files hold %d events, harness reported %d" % (total, info["events"]))
@@ -162,7 +153,7 @@ def run(ctx):
             e = json.loads(line)
             r = e["row"]
             kind = None
-            if e["ev"] == "Out" and e["obs"]["sent"] and "tie=1" in row_case(r) and e["conc"]["order"][0] != 1:
+            if e["ev"] == "Out" and e["obs"]["sent"] and row_case(r)["tie"] and e["conc"]["order"][0] != 1:
                 kind = "outbound: tie on valid_from, larger id listed first"
             elif e["ev"] == "Out" and not e["obs"]["sent"] and r["un"] and "env var" in e["obs"]["err"]:
                 kind = "outbound: selected secret cannot be loaded"
